@@ -530,3 +530,14 @@ def _sar_model(name, kernel_q, noisy):
 
 unit("C16", "model.sar_adc")(_sar_model("sar_adc", RE + "sar_adc.py::apply_sar_adc", False))
 unit("C16", "model.sar_adc_with_noise")(_sar_model("sar_adc_with_noise", RE + "sar_adc_with_noise.py::apply_sar_adc_with_noise", True))
+
+
+
+def _image_setter(u: Unit):
+    """C13's Image.array setter unit (imported late): the codes a converter returns are STORED as given -- in their own unsigned type, whatever
+    (narrower) type the image held before -- so 'stored in an unsigned type wide enough for full scale' survives the assignment."""
+    from . import C13 as _C13
+    return _C13.IMAGE_SETTER_UNIT(u)
+
+
+unit("C16", "image.setter")(_image_setter)
